@@ -268,6 +268,14 @@ func (r *rewriter) run() {
 		conds   []lockCall
 		lockers []lockCall
 	)
+	callFuns := map[ast.Expr]bool{}
+	ast.Inspect(r.file, func(n ast.Node) bool {
+		if c, ok := n.(*ast.CallExpr); ok {
+			callFuns[c.Fun] = true
+		}
+		return true
+	})
+	var methodVals []*ast.SelectorExpr
 	ast.Inspect(r.file, func(n ast.Node) bool {
 		switch x := n.(type) {
 		case *ast.GoStmt:
@@ -285,6 +293,18 @@ func (r *rewriter) run() {
 				r.rep.MapRangeSkipped = append(r.rep.MapRangeSkipped, r.site(x.Pos())+" (type parameter)")
 			}
 		case *ast.SelectorExpr:
+			if sel, ok := r.info.Selections[x]; ok && sel.Kind() == types.MethodVal {
+				if fn, _ := sel.Obj().(*types.Func); fn != nil && fn.Pkg() != nil && fn.Pkg().Path() == "sync" {
+					rn := ""
+					if recv := fn.Type().(*types.Signature).Recv(); recv != nil {
+						rn = recvTypeName(recv.Type())
+					}
+					isRLocker := rn == "RWMutex" && fn.Name() == "RLocker"
+					if (rn == "Mutex" || rn == "RWMutex") && ((!callFuns[x] && lockNames[fn.Name()] != "") || isRLocker) {
+						methodVals = append(methodVals, x)
+					}
+				}
+			}
 			id, ok := x.X.(*ast.Ident)
 			if !ok {
 				break
@@ -402,6 +422,36 @@ func (r *rewriter) run() {
 		se.X.(*ast.Ident).Name = "simos"
 		r.rep.OsCalls++
 		r.need["simos"] = true
+		r.changed = true
+	}
+	// method values of the lock methods (and rw.RLocker()): the receiver becomes a view whose methods are simulated
+	for _, mv := range methodVals {
+		t := r.info.TypeOf(mv.X)
+		if t == nil {
+			continue
+		}
+		base := t
+		_, isPtr := t.Underlying().(*types.Pointer)
+		if isPtr {
+			base = t.Underlying().(*types.Pointer).Elem()
+		}
+		view := ""
+		switch recvTypeName(base) {
+		case "Mutex":
+			view = "MV"
+		case "RWMutex":
+			view = "RWV"
+		default:
+			r.rep.Warnings = append(r.rep.Warnings, r.site(mv.Pos())+" method value of an embedded mutex not simulated")
+			continue
+		}
+		var arg ast.Expr = mv.X
+		if !isPtr {
+			arg = &ast.UnaryExpr{Op: token.AND, X: mv.X}
+		}
+		mv.X = &ast.CallExpr{Fun: sel("simrt", view), Args: []ast.Expr{arg, siteLit(r.site(mv.Pos()))}}
+		r.rep.LockSites++
+		r.need["simrt"] = true
 		r.changed = true
 	}
 	for _, lc := range locks {
